@@ -38,6 +38,7 @@ def getResp (j : Json) : Resp :=
     gen := (match getStr j "gen" with
       | "yields" => .yields | "empty" => .empty | "raises" => .raises (fcOf (getStr j "fc")) | _ => .notGen),
     serializeFails := getBool j "serFails",
+    dumpFails := getBool j "dumpFails",
     serFailClass := (match getStr j "serFc" with | "" => .server | x => fcOf x),
     chunks := natList j "chunks",
     sized := getBool j "sized" }
